@@ -20,7 +20,13 @@ VARIABLES case, beh
 vars == <<case, beh>>
 
 SrtpOverhead == 10
-Entries == {"client", "session", "stream"}
+\* "multicast" = ServerStream.WritePacketRTP/RTCP reaching the stream's multicast writer (a reader
+\* that set the stream up with multicast delivery): the stream marshals / protects once with the
+\* same limits as for its unicast readers and hands the bytes to the multicast sockets.
+Entries == {"client", "session", "stream", "multicast"}
+\* only a client's outbound context ever carries a master key identifier (client-managed keys);
+\* the server's session / stream / multicast contexts never do
+MkiEntries == {"client"}
 Kinds == {"rtp", "rtcp"}
 
 Overhead(kind, secure, mki) ==
@@ -32,7 +38,7 @@ Wire(max, kind, secure, mki, plain) == plain + Overhead(kind, secure, mki)
 
 Cases == {[entry |-> e, kind |-> k, secure |-> s, mki |-> m, max |-> mx, plain |-> mx + d] :
             e \in Entries, k \in Kinds, s \in BOOLEAN, m \in BOOLEAN, mx \in Maxima, d \in (0 - Span)..Span}
-ValidCases == {c \in Cases : (c.mki => c.secure) /\ c.plain >= 12}
+ValidCases == {c \in Cases : (c.mki => (c.secure /\ c.entry \in MkiEntries)) /\ c.plain >= 12}
 
 Init == case = [entry |-> "-"] /\ beh = ""
 Pick == /\ beh = ""
